@@ -351,6 +351,13 @@ def configs(tier, seed):
                     out.append(dict(kind=kind, ckpt=(W == 1), mra=False, timecol=timecol, simconf=simconf, sleep=sleep, W=W,
                                     n_a=2, n_seeds=1, R=4, seed=seed, bseed=0, stop={"max_num_trials_started": 4},
                                     k=1 if tier == "quick" else 2, loop_cap=3000, max_exec=60 if tier == "quick" else 600))
+    # more workers and longer learning curves: many queued events of several trials while one of them is stopped
+    for kind in ("hb-stopping", "hb-promotion", "median"):
+        for timecol in ("monotone", "nonmono"):
+            for sleep in (0.1, 5.0):
+                out.append(dict(kind=kind, ckpt=True, mra=(kind == "hb-promotion"), timecol=timecol, simconf="default", sleep=sleep, W=3,
+                                n_a=3, n_seeds=1, R=6, seed=seed, bseed=0, stop={"max_num_trials_started": 6},
+                                k=1 if tier == "quick" else 2, loop_cap=1500, max_exec=40 if tier == "quick" else 500))
     return out
 
 
